@@ -643,9 +643,7 @@ func init() {
 			c13Server(r)
 		}
 		if r.Only() == "" || r.Only()[0] == 'c' {
-			if o := r.RunLeg("plain", "c13client", 20*time.Minute, env); !o.OK {
-				r.Inconclusive("client leg did not finish: " + o.Stderr)
-			}
+			r.CrashViolation(r.RunLeg("plain", "c13client", 20*time.Minute, env), "scion-client")
 		}
 		r.Assume("DRKey replaced by the project's mock keys (USE_MOCK_KEYS=true): the host-to-host key is the zero key, so changes of ISD-AS/host addresses (bound through key derivation, not through the MAC input) are not asserted; hand-built paths, no control plane")
 		r.Assume("'definitely covered' bytes = UDP header and payload, authenticator timestamp/sequence, flow id, hop-field MACs, the MAC itself (scion library spao input)")
